@@ -188,6 +188,25 @@ theorem remove_agree {d d' : J} {h : String} (rest : List String) (ha : AgreeOff
     | _ => simp [isObj] at ho'
   | _ => simp [isObj] at ho
 
+theorem remove2_agree {d d' x x' : J} {f t : List String} {hf ht : String} (ha : AgreeOff d d')
+    (h1 : f.head? = some hf) (h2 : t.head? = some ht) (n1 : hf ≠ "metadata") (n2 : ht ≠ "metadata")
+    (h : remove2 d f t = .ok x) (h' : remove2 d' f t = .ok x') : AgreeOff x x' := by
+  obtain ⟨y, r1, r2⟩ := remove2_ok h
+  obtain ⟨y', r1', r2'⟩ := remove2_ok h'
+  cases f with
+  | nil => simp at h1
+  | cons f0 frest =>
+    simp at h1; subst h1
+    have a1 := remove_agree frest ha n1
+    rw [r1, r1'] at a1
+    cases t with
+    | nil => simp at h2
+    | cons t0 trest =>
+      simp at h2; subst h2
+      have a2 := remove_agree trest a1 n2
+      rw [r2, r2'] at a2
+      exact a2
+
 theorem ignoreFields_agree : ∀ (ig : List (List String)) (e e' x x' : J), AvoidKey "metadata" ig → AgreeOff e e' →
     ignoreFields e ig = .ok x → ignoreFields e' ig = .ok x' → AgreeOff x x'
   | [], e, e', x, x', _, ha, h, h' => by simp [ignoreFields] at h h'; subst h; subst h'; exact ha
@@ -282,7 +301,7 @@ theorem progressClear_agree : ∀ (pc : ProgressCfg) (e e' x x' : J), AvoidKey "
         rw [hl1, hl1'] at a1
         rw [hl1] at h2; rw [hl1'] at h2'
         exact progressClear_agree pc _ _ x x' hav (removeEmptyStanzas_agree a1) h2 h2'
-  | .status f :: pc, e, e', x, x', hav, ha, h, h' => by
+  | .status f t :: pc, e, e', x, x', hav, ha, h, h' => by
     simp only [progressClear] at h h'
     obtain ⟨e1, h1, h2⟩ := bind_ok h
     obtain ⟨e1', h1', h2'⟩ := bind_ok h'
@@ -290,13 +309,11 @@ theorem progressClear_agree : ∀ (pc : ProgressCfg) (e e' x x' : J), AvoidKey "
     obtain ⟨e0, h0, h3⟩ := bind_ok h1
     obtain ⟨e0', h0', h3'⟩ := bind_ok h1'
     obtain ⟨hd, hhd, hne⟩ := hav f List.mem_cons_self
-    cases f with
-    | nil => simp at hhd
-    | cons f0 rest =>
-      simp at hhd; subst hhd
-      have hr := remove_agree rest ha hne
-      rw [liftD_ok h0, liftD_ok h0'] at hr
-      simp only [] at hr
+    obtain ⟨td, thd, tne⟩ := hav t (List.mem_cons_of_mem _ List.mem_cons_self)
+    have hr := remove2_agree ha hhd thd hne tne (liftD_ok h0) (liftD_ok h0')
+    cases hobj : e0.isObj with
+    | false => rw [hr.1] at hobj; cases hobj
+    | true =>
       obtain ⟨l0, rfl⟩ := isObj_obj hr.1
       obtain ⟨l0', rfl⟩ := isObj_obj hr.2.1
       cases hm : metaOK (.obj l0) with
@@ -308,7 +325,7 @@ theorem progressClear_agree : ∀ (pc : ProgressCfg) (e e' x x' : J), AvoidKey "
           simp [hm, pure, Except.pure] at h3
           simp [hm', pure, Except.pure] at h3'
           subst h3; subst h3'
-          exact progressClear_agree pc _ _ x x' (fun g hg => hav g (List.mem_cons_of_mem _ hg))
+          exact progressClear_agree pc _ _ x x' (fun g hg => hav g (List.mem_cons_of_mem _ (List.mem_cons_of_mem _ hg)))
             (removeEmptyStanzas_agree hr) h2 h2'
 
 /-! ### Part B: the metadata stanza, explicitly, for a single annotations diff-base storage -/
@@ -316,7 +333,7 @@ theorem progressClear_agree : ∀ (pc : ProgressCfg) (e e' x x' : J), AvoidKey "
 def progOK : ProgressCfg → String → Bool
   | [], _ => true
   | .annotations q :: pc, k => !underPrefix q.toList k && progOK pc k
-  | .status _ :: pc, k => progOK pc k
+  | .status _ _ :: pc, k => progOK pc k
 
 theorem filtK_filtK (f g : String → Bool) (a : Kvs) : filtK f (filtK g a) = filtK (fun k => g k && f k) a := by
   simp [filtK, List.filter_filter, Bool.and_comm]
@@ -351,14 +368,15 @@ theorem progress_meta {L : Option J} : ∀ (pc : ProgressCfg) (l : Kvs) (A : Opt
       cases A with
       | none => rfl
       | some a => simp [filtK_filtK, progOK]
-  | .status f :: pc, l, A, e, hl, hav, h => by
+  | .status f t :: pc, l, A, e, hl, hav, h => by
     simp only [progressClear] at h
     obtain ⟨e1, h1, h2⟩ := bind_ok h
     simp only [clearLeaf] at h1
     obtain ⟨e0, h0, h3⟩ := bind_ok h1
     obtain ⟨hd, hhd, hne⟩ := hav f List.mem_cons_self
-    have g0 := remove_get? f (.obj l) e0 hd "metadata" hhd hne (liftD_ok h0)
-    obtain ⟨l0, rfl⟩ := isObj_obj (remove_isObj f (.obj l) e0 rfl (liftD_ok h0))
+    obtain ⟨td, thd, tne⟩ := hav t (List.mem_cons_of_mem _ List.mem_cons_self)
+    have g0 : e0.get? "metadata" = (J.obj l).get? "metadata" := remove2_get? hhd thd hne tne (liftD_ok h0)
+    obtain ⟨l0, rfl⟩ := isObj_obj (remove2_isObj (e := .obj l) rfl (liftD_ok h0))
     cases hm : metaOK (.obj l0) with
     | false => simp [hm, throw, throwThe, MonadExceptOf.throw, bind, Except.bind] at h3
     | true =>
@@ -370,7 +388,7 @@ theorem progress_meta {L : Option J} : ∀ (pc : ProgressCfg) (l : Kvs) (A : Opt
         rw [g1]
         have : lookup "metadata" l0 = N L A := by simpa [get?, hl] using g0
         rw [this, cleanM_N]
-      have := progress_meta pc l1 A e hl1' (fun g hg => hav g (List.mem_cons_of_mem _ hg)) h2
+      have := progress_meta pc l1 A e hl1' (fun g hg => hav g (List.mem_cons_of_mem _ (List.mem_cons_of_mem _ hg))) h2
       rw [this]
       cases A <;> simp [progOK]
 
@@ -384,7 +402,7 @@ theorem progOK_false_of_under : ∀ (pc : ProgressCfg) (k q : String), q ∈ pro
     rcases hq with rfl | hq
     · simp [progOK, hu]
     · simp [progOK, progOK_false_of_under pc k q hq hu]
-  | .status _ :: pc, k, q, hq, hu => by
+  | .status _ _ :: pc, k, q, hq, hu => by
     simp only [progressPrefixes] at hq
     simp [progOK, progOK_false_of_under pc k q hq hu]
 
@@ -439,7 +457,7 @@ theorem oeqv_refl (o : Option J) (h : ∀ v, o = some v → wf v = true) : oeqv 
   | some v => exact (optRel_dn_some v v).2 (eqv_refl v (h v rfl))
 
 theorem eqv_of_lookup_eq {le le' : Kvs} (hw : wfKvs le = true) (hw' : wfKvs le' = true)
-    (h : ∀ k, lookup k le = lookup k le') : pyEq (dropNulls (.obj le)) (dropNulls (.obj le')) = true := by
+    (h : ∀ k, lookup k le = lookup k le') : same (dropNulls (.obj le)) (dropNulls (.obj le')) = true := by
   rw [eqv_obj_iff hw hw']
   intro k
   rw [← h k]
